@@ -169,6 +169,17 @@ m('ops4-or-builder-builds-and', 'OPS4', 'builder or', ('query/criteria.go', '''f
 		OpType: LogicalOr,''', '''func or(c1, c2 Criteria) Criteria {
 	return &BinaryCriteria{
 		OpType: LogicalAnd,'''))
+m('sort1-absent-after-present', 'SORT1', 'one sort option', ('plan.go', '''		if !firstHas && secondHas {
+			return -direction
+		}''', '''		if !firstHas && secondHas {
+			return direction
+		}'''))
+m('sort1-second-key-ignores-direction', 'SORT1', 'sort option', ('plan.go', '''			if res != 0 {
+				return res * direction
+			}''', '''			if res != 0 {
+				return res
+			}'''))
+m('sort2-zero-is-descending', 'SORT2', 'direction 0', ('query/query.go', '''		if opt.Direction >= 0 {''', '''		if opt.Direction > 0 {'''))
 # ---- IDX / ID
 m('idx1-save-without-index-add', 'IDX1', 'DB.UpdateById/save', ('db.go', '''	if err := db.addDocToIndexes(tx, indexes, updatedDoc); err != nil {
 		return err
